@@ -25,6 +25,16 @@ PANICKY = {
     "bytes::bytes::Bytes::truncate": None,
     "bytes::bytes_mut::BytesMut::split_to": "split index out of bounds",
     "bytes::bytes_mut::BytesMut::split_off": "split index out of bounds",
+    # str / String: byte offsets that must fall on a char boundary (a length test does not make them safe)
+    "alloc::string::String::truncate": "new_len not on a char boundary",
+    "alloc::string::String::split_off": "at not on a char boundary",
+    "alloc::string::String::insert": "idx not on a char boundary",
+    "alloc::string::String::insert_str": "idx not on a char boundary",
+    "alloc::string::String::remove": "idx not on a char boundary",
+    "alloc::string::String::drain": "range not on char boundaries",
+    "alloc::string::String::replace_range": "range not on char boundaries",
+    "core::str::<impl str>::split_at": "mid not on a char boundary",
+    "core::str::<impl str>::split_at_mut": "mid not on a char boundary",
     # alloc
     "alloc::vec::Vec::swap_remove": "index out of bounds",
     "alloc::vec::Vec::remove": "index out of bounds",
@@ -134,7 +144,12 @@ def enumerate_sites(body, include_alloc=True, narrowing=False):
             macros = c.macros
             sites.append(Site(body, "panic", "panic!" if not macros else macros[-1].rsplit("::", 1)[-1] + "!", c.span, c, c.bb))
         elif n in INDEX:
-            sites.append(Site(body, "index", "index<%s>" % _short_ty(c.self_ty), c.span, c, c.bb))
+            st_ = strip_generics(c.self_ty or "")
+            if st_ in ("str", "alloc::string::String") and not (len(c.arg_tys) > 1 and "RangeFull" in c.arg_tys[1]):
+                # slicing a string by byte offsets panics off a char boundary: a separate kind that no length rule discharges
+                sites.append(Site(body, "strindex", "str[byte range]", c.span, c, c.bb))
+            else:
+                sites.append(Site(body, "index", "index<%s>" % _short_ty(c.self_ty), c.span, c, c.bb))
         elif n in PANICKY:
             sites.append(Site(body, "api", short, c.span, c, c.bb))
         elif n.startswith("bytes::buf::buf_impl::Buf::get_"):
